@@ -1029,6 +1029,15 @@ func (g *Gen) genBatch(faulty bool) {
 			f = g.maybeCached("A " + idsStr(g.subset(all, 2)))
 		}
 		g.do("b_rment " + f)
+		// the slots of the removed entities hold no table any more: the unchecked accessors panic on them
+		// exactly as after single removals
+		if d := g.deadIdx(); len(d) > 0 && len(all) > 0 {
+			for k := 0; k < 2; k++ {
+				if g.rng.chance(60) {
+					g.do(fmt.Sprintf("%s e%d %d", pick(g.rng, []string{"hasu", "hasu", "relu", "getu"}), pick(g.rng, d), pick(g.rng, all)))
+				}
+			}
+		}
 	}
 }
 
